@@ -99,6 +99,8 @@ def run(ctx):
     def stream():
         for _ in range(n_rule):
             yield G.rule_directed(rng)
+        for _ in range(n_rule // 3):
+            yield G.near_miss(rng)
         for _ in range(n_rand):
             yield G.random_tree(rng)
         if ctx.thorough():
